@@ -660,9 +660,89 @@ def h10(ctx, rid):
         raise core.AnchorLost('flock constructions in src/io/unix: %d' % n)
 
 
+def h11(ctx, rid):
+    """a record written in two parts goes to the file front to back: the part at the reserved offset is written before the part
+    at `offset + len(first)`.  Written back to front, the file already extends past a hole of zeros where the head will be: the
+    head write then lands below the end of the blob - an overwrite, not an append - and a snapshot taken in between is not a
+    prefix of the finished file"""
+    prog = ctx.prog
+    n = 0
+
+    def shifted(g, c):
+        """the offset of raw write `c` in body `g` is an arithmetic function of the reserved offset"""
+        ogs = core.origins(g, c.args[2], stop_fields=True)
+        if any(o.kind == 'binop' for o in ogs):
+            return True
+        if g.kind == 'Closure' and any(o.kind == 'upvar' for o in ogs):
+            # `offset = offset + b1.len()` on a captured variable before the write
+            for i in g.reachable():
+                for st in g.blocks[i]['s']:
+                    if st['k'] == 'a' and st['d'][0] == 1 and st['d'][1] and c.bb in g.reach_from([i]):
+                        r = st['r']
+                        if r['k'] == 'bin' or (r['k'] == 'use' and any(o.kind == 'binop' for o in core.origins(g, r['o'], stop_fields=True))):
+                            return True
+        return False
+
+    def before(ga, a, gb, b):
+        """write a (in body ga) is performed before write b (in body gb)"""
+        if ga is gb:
+            return ga.term_dominates(a.bb, b.bb)
+        if gb.parent == ga.id:
+            sites = [bb for (p2, bb, r) in core.closure_construction_sites(prog, gb.id) if p2.id == ga.id]
+            return bool(sites) and all(ga.term_dominates(a.bb, sb) or a.bb == sb for sb in sites)
+        return False
+    for f in prog.fns.values():
+        if not f.file.startswith('src/io/') or f.kind == 'Closure':
+            continue
+        fam = [prog.fns[x] for x in prog.family(f.id) if x in prog.fns]
+        ws = [(g, c) for g in fam for c in g.calls if c.bb in g.reachable() and prims.is_raw(c, prims.RAW_WRITE_AT)]
+        tails = [(g, c) for (g, c) in ws if shifted(g, c)]
+        heads = [(g, c) for (g, c) in ws if not shifted(g, c)]
+        if not tails or not heads:
+            continue
+        for (gt, t) in tails:
+            rel = [(gh, h) for (gh, h) in heads if before(gh, h, gt, t) or before(gt, t, gh, h)]
+            if not rel:
+                continue
+            n += 1
+            key = 'two-part-write-front-to-back|%s' % f.id
+            wrong = [(gh, h) for (gh, h) in rel if before(gt, t, gh, h)]
+            if wrong:
+                ctx.bad(rid, key, t.where(), 'the part at `offset + len` is written before the part at the reserved offset (%s): the file grows past an unwritten hole and the head is written below the end of the file afterwards' % wrong[0][1].where())
+            else:
+                ctx.ok(rid, key, t.where(), 'the write at the reserved offset comes first')
+    if n < 1:
+        raise core.AnchorLost('two-part positional writes: %d' % n)
+
+
+def h12(ctx, rid):
+    """the length of a blob file changes only through its positional writes: no preallocation / truncation call (fallocate,
+    posix_fallocate, ftruncate, set_len on a blob descriptor) in the io, record and blob code.  A preallocated zero tail makes every
+    later record write land below the end of the file, and a crash in between leaves zeros inside the blob"""
+    prog = ctx.prog
+    DENY = ('posix_fallocate', 'fallocate', 'fallocate64', 'ftruncate', 'ftruncate64', 'truncate', 'truncate64')
+    n = 0
+    bad = None
+    for f in prog.fns.values():
+        if not (f.file.startswith('src/io/') or f.file.startswith('src/record/') or f.file.startswith('src/blob/')):
+            continue
+        n += 1
+        for c in f.calls:
+            if c.bb in f.reachable() and c.name in DENY and (c.decl_crate in ('nix', 'libc', 'rustix') or c.crate in ('nix', 'libc', 'rustix')):
+                bad = c
+    if n < 100:
+        raise core.AnchorLost('functions in the io / record / blob code: %d' % n)
+    if bad:
+        ctx.bad(rid, 'length-changes-only-by-writes', bad.where(), 'the length of a file is changed by `%s`: bytes of the blob exist before they are written, so the record write that follows is not an append' % bad.full[:60])
+    else:
+        ctx.ok(rid, 'length-changes-only-by-writes', '', 'no preallocation / truncation call in %d functions' % n, nontrivial=False, queries=n)
+
+
 RULES = [
     Rule('C07.H1', 'every raw destructive OS primitive call site lies in the owner module of its kind', h1, 8),
     Rule('C07.H2', 'in-crate positional write wrappers are called only by index-file builders, at constant offset 0, on the file they created', h2, 1),
+    Rule('C07.H11', 'a two-part record is written front to back', h11, 1),
+    Rule('C07.H12', 'no preallocation or truncation call changes the length of a blob file', h12, 1),
     Rule('C07.H3', 'offsets of appends originate only in FileInner.size.fetch_add; the size counter is only loaded / fetch_add-ed', h3, 5),
     Rule('C07.H4', 'truncating create, remove and index-file creation act on paths derived from with_extension("index")', h4, 4),
     Rule('C07.H9', 'the tools never truncate their own input: in-place recovery renames first (C16.W3 instances)', h9, 2),
